@@ -202,6 +202,7 @@ class WSStream:
         self.pongs: List[Union[WSProtoEvent, bytes]] = []
         self.sending_pongs = False
         self.pongs_sent = 0
+        self.ended_by_client = False
         self.pongs_stalled_at = -1
         self.close_after_replies = False
         self.ping_task = context.single_task_class()
@@ -292,6 +293,8 @@ class WSStream:
             self.connection.receive_data(event.data)
             await self._handle_events()
         elif isinstance(event, EndBody):
+            if self.handshake.http_version != "1.1":
+                self.ended_by_client = True  # Should the app accept later
             if (
                 self.handshake.accepted
                 and self.handshake.http_version != "1.1"
@@ -536,6 +539,11 @@ class WSStream:
             self.handshake.accepted = False
             raise
         await self._log_access({"status": status_code, "headers": []})
+        if self.ended_by_client and not self.closed:
+            # The client had ended its side of the stream before the app
+            # accepted: a connection that is lost as soon as it is made
+            await self.send(StreamClosed(stream_id=self.stream_id))
+            return
         if self.config.websocket_ping_interval is not None:
             # Stopped when the stream closes, as otherwise it (and with it
             # the connection) would last until the next ping is due
